@@ -179,7 +179,7 @@ type accountLeaf struct {
 // MaxTree bounds the unfolded size (cells) of a source tree that is written out: an OutMsg entry repeats its whole
 // transaction (and, through reimport, the InMsg with the transaction again), so entries of transactions with hundreds of
 // messages unfold to tens of thousands of cells each. Larger records are counted (k = "TooBig") and not judged.
-var MaxTree = 400
+var MaxTree = 300
 
 func treeSize(c *boc.Cell, budget *int) {
 	*budget--
@@ -265,13 +265,13 @@ func accountsCells(state *boc.Cell) []*boc.Cell {
 // DriveMore records the additional real-data events. In the quick tier entries of the big dictionaries are sampled.
 func DriveMore(w *ev.Writer, o Opts) {
 	quick := o.Tier != "thorough"
-	MaxTree = 400
+	MaxTree = 300
 	if !quick {
-		MaxTree = 1000
+		MaxTree = 800
 	}
 	n := 0 // running index over all records: sharding
 	// quick: at most `quota` entries of one dictionary, spread evenly over its keys (total = number of entries)
-	const quota = 48
+	const quota = 24
 	take := func(i, total int) bool {
 		if quick && total > quota && (i*quota)/total == ((i-1)*quota)/total && i != 0 {
 			return false
@@ -279,7 +279,7 @@ func DriveMore(w *ev.Writer, o Opts) {
 		n++
 		return n%o.Shards == o.Shard
 	}
-	for _, bp := range MoreBlocks() {
+	for bi, bp := range MoreBlocks() {
 		data, err := os.ReadFile(bp)
 		if err != nil {
 			continue
@@ -307,16 +307,27 @@ func DriveMore(w *ev.Writer, o Opts) {
 			var vf tlb.ValueFlow
 			decSrcMore(w, "ValueFlow", refs[1], &vf, bname+" value_flow", true)
 		}
-		var blk tlb.Block
-		if st, msg := unmarshal(root, &blk); st != "ok" {
-			w.Emit(ev.M{"k": "Panic", "where": bp, "panic": "block does not decode: " + st + " " + msg})
+		// block_extra#4a33f6fd in_msg_descr:^InMsgDescr out_msg_descr:^OutMsgDescr account_blocks:^ShardAccountBlocks ...
+		xrefs := refs[3].Refs()
+		if len(xrefs) < 3 {
+			w.Emit(ev.M{"k": "Panic", "where": bp, "panic": fmt.Sprintf("block extra has %d references", len(xrefs))})
 			continue
+		}
+		// one shard per block asks the library for its listing of the two dictionaries (the walker and the library must see
+		// the same entries); every shard walks the raw dictionaries and decodes only its own share of the entries
+		owner := bi%o.Shards == o.Shard
+		var blk tlb.Block
+		if owner {
+			if st, msg := unmarshal(root, &blk); st != "ok" {
+				w.Emit(ev.M{"k": "Panic", "where": bp, "panic": "block does not decode: " + st + " " + msg})
+				continue
+			}
 		}
 		// ---- InMsgDescr / OutMsgDescr
 		for _, d := range []struct {
 			name string
 			cell boc.Cell
-		}{{"InMsgDescrLeaf", blk.Extra.InMsgDescrCell}, {"OutMsgDescrLeaf", blk.Extra.OutMsgDescrCell}} {
+		}{{"InMsgDescrLeaf", *xrefs[0]}, {"OutMsgDescrLeaf", *xrefs[1]}} {
 			c := d.cell
 			c.ResetCounters()
 			leaves, pruned, err := augELeaves(&c, 256)
@@ -326,7 +337,11 @@ func DriveMore(w *ev.Writer, o Opts) {
 			}
 			// the walker and the library must see the same entries
 			var libKeys []string
-			if d.name == "InMsgDescrLeaf" {
+			if !owner {
+				for _, l := range leaves {
+					libKeys = append(libKeys, l.Key)
+				}
+			} else if d.name == "InMsgDescrLeaf" {
 				hm, err := blk.Extra.InMsgDescr()
 				if err != nil {
 					w.Emit(ev.M{"k": "DECSRC", "type": "InMsgDescr", "where": bname, "tree": "", "dec": "err", "enc": "", "tree2": "", "unique": false, "msg": err.Error()})
